@@ -4,6 +4,7 @@ import os
 
 from common import VERIF, CorrResult, Failure, run_check
 import sandboxexec_common as sx
+import sandboxexec_sizes as sz
 from translate_sandbox import translate
 
 RULE_CORR = ("histories of 1-6 executions on one sandbox: every builtin exception class, user subclasses of "
@@ -41,10 +42,13 @@ def histories(prop, rng, tier):
         hs += keep
     else:
         hs += sweep
+    # the size dimension: every limit constant of the recording / rendering path, read from the tree under test
+    hs += sz.sized_histories(rng, tier)
     snippets = sx.failing_snippets(rng)
+    sized = [s for s in sz.sized_snippets(rng) + sz.rendering_snippets() if not s.get("slow")]
     n = 60 if tier == "quick" else 4000
     for _ in range(n):
-        hs.append(sx.gen_history(rng, snippets))
+        hs.append(sx.gen_history(rng, snippets, sized=sized))
     return hs
 
 
@@ -112,17 +116,40 @@ def make(prop, theorems, *, model_notes=None, refuted_full=None, driver_exe=None
         failures, seen = [], set()
         nt = set()
 
+        sizes_seen = {}     # (signature key | None for "fine", dimension) -> set of sizes
+
         def consider(ops, obs):
             info["evaluations"] += 1
             if any(op["term"][0] != "N" for op in ops):
                 nt.add(sx.request_line(ops))
+            failed_at = {}
             for idx, sig, what in sx.failures_in(prop, ops, obs):
                 key = json.dumps(sig, sort_keys=True)
+                failed_at[idx] = key
                 if key in seen:
                     continue
                 seen.add(key)
                 small, small_obs = sx.shrink_history(prop, ops, idx, sig)
                 failures.append(Failure(sig, what, {"ops": small, "real": small_obs if small_obs else obs[:idx + 1]}))
+            for idx, op in enumerate(ops):
+                if op.get("size"):
+                    sizes_seen.setdefault((failed_at.get(idx), op["size"]["dim"]), set()).add(op["size"]["n"])
+
+        def add_size_ranges():
+            """Where a failure is one of the size dimension: between which sizes does it start?"""
+            for f in failures:
+                shape = str(f.signature.get("shape", ""))
+                if not shape.startswith("size:"):
+                    continue
+                dim = shape[len("size:"):]
+                bad = sorted(sizes_seen.get((json.dumps(f.signature, sort_keys=True), dim), ()))
+                good = sorted(sizes_seen.get((None, dim), ()))
+                if bad:
+                    below = [n for n in good if n < bad[0]]
+                    f.what += " [size dimension %r: this replay has size %s; sizes that fail: %s%s; %s]" % (
+                        dim, f.replay["ops"][-1].get("size", {}).get("n"), ", ".join(map(str, bad[:10])),
+                        " ..." if len(bad) > 10 else "",
+                        "largest smaller size that is fine: %d" % below[-1] if below else "no smaller size is fine")
 
         for ops, obs in getattr(corr, "runs", []):
             consider(ops, obs)
@@ -131,17 +158,21 @@ def make(prop, theorems, *, model_notes=None, refuted_full=None, driver_exe=None
             sx.warm_up()
             extra += sx.coverage_histories(rng)
         snippets = sx.failing_snippets(rng)
+        sized = [s for s in sz.sized_snippets(rng) + sz.rendering_snippets() if not s.get("slow")]
         n = 40 if tier == "quick" else 1500
         if broken:
             n *= 3
+            extra += sz.sized_histories(rng, "thorough" if tier != "quick" else "quick")
         for _ in range(n):
-            extra.append(sx.gen_history(rng, snippets, inject_rate=0.1))
+            extra.append(sx.gen_history(rng, snippets, inject_rate=0.1, sized=sized))
         for ops in extra:
             if len(failures) >= 8:
                 break
             consider(ops, sx.run_history(ops))
+        add_size_ranges()
         info["distinct_nontrivial"] = len(nt)
         info["oracle_clauses_skipped"] = dict(sx.SKIPPED)
+        info["size_limits_read_from_the_tree"] = sz.describe_limits()
         return failures, info
 
     def replay(payload):
